@@ -44,6 +44,8 @@ func aggrStore(r *Rand) []KV {
 	pool := []KV{{"a", "bc"}, {"ab", "c"}, {"abc", ""}, {"a1", "2"}, {"a12", "2"}, {"b", "12"}, {"b1", "2"}, {"ba", "12"}, {"k1", "1"}, {"k12", "21"}, {"k2", "1"}, {"k21", "c"}, {"l", "7"}, {"m", "-3"}, {"p1", "0.5"}, {"p2", "1.5"}, {"p3", "-0.25"},
 		// floats that are not dyadic: every arithmetic step rounds, so the ORDER of the steps shows
 		{"q1", "0.1"}, {"q2", "1.2"}, {"q3", "0.7"},
+		// the empty key is a key like any other (it sorts first in every scan)
+		{"", "5"},
 		// values of 10 and more bytes, digit-leading keys, ':' inside: the group key must stay injective
 		{"0", "abcdefgh1z"}, {"10abcdefgh", "z"}, {"1", "0:a"}, {"11:0", "a"}, {"3:abc", "2"}, {"3", "abc2"}}
 	n := r.Intn(len(pool) + 1)
